@@ -563,6 +563,12 @@ class SymR:
     def arccos(self):
         return sym_arccos(self)
 
+    def arctan(self):
+        return sym_arctan(self)
+
+    def arcsin(self):
+        return sym_arcsin(self)
+
     def exp(self):
         return sym_exp(self)
 
@@ -654,7 +660,14 @@ def _real_op(x: SymR, y: SymR, op):
     if op == 'truediv':
         if yc is not None:
             if yc == 0:
-                raise ZeroDivisionError("symx: division by constant zero")
+                # NumPy semantics (the code under test may rely on inf/nan with errstate)
+                if xc is not None:
+                    return float('nan') if xc == 0 else (INF if xc > 0 else -INF)
+                if x > 0:
+                    return INF
+                if x < 0:
+                    return -INF
+                return float('nan')
             if xc is not None:
                 return SymR(xc / yc)
             if yc == 1:
@@ -1392,6 +1405,41 @@ def sym_arctan2(y, x):
 def sym_hypot(x, y):
     x, y = _lift_real(x), _lift_real(y)
     return sym_sqrt(x * x + y * y)
+
+
+def sym_arctan(x):
+    """theta in (-pi/2, pi/2) with tan(theta) = x"""
+    x = _lift_real(x)
+    c = ctx()
+    if x.c is not None and x.c == 0:
+        return SymR(0)
+    pi = c.get_pi().term()
+    th = c.fresh('atan')
+    c.defs[str(th)] = ('atan', x.term())
+    c.add_axiom(th > -pi / 2)
+    c.add_axiom(th < pi / 2)
+    out = SymR(th)
+    s, co = trig(out)
+    c.add_axiom(co.term() > 0)
+    c.add_axiom(s.term() == (x * co).term())
+    return out
+
+
+def sym_arcsin(x):
+    """theta in [-pi/2, pi/2] with sin(theta) = x"""
+    x = _lift_real(x)
+    c = ctx()
+    _assume_defined(z3.And(x.term() >= -1, x.term() <= 1), "arcsin: |x| <= 1")
+    pi = c.get_pi().term()
+    th = c.fresh('asin')
+    c.defs[str(th)] = ('asin', x.term())
+    c.add_axiom(th >= -pi / 2)
+    c.add_axiom(th <= pi / 2)
+    out = SymR(th)
+    s, co = trig(out)
+    c.add_axiom(s.term() == x.term())
+    c.add_axiom(co.term() >= 0)
+    return out
 
 
 def sym_arccos(x):
